@@ -32,6 +32,10 @@ def run(sid, units=None):
     try:
         r = sh("git -C %s apply %s" % (wt, os.path.join(d, "patch.diff")))
         if r.returncode != 0:
+            # later `fix:` commits may have moved the surrounding lines: retry with reduced context
+            r = sh("git -C %s apply -C1 %s" % (wt, os.path.join(d, "patch.diff")))
+            res["applied_with_reduced_context"] = True
+        if r.returncode != 0:
             print("patch does not apply to /repo HEAD %s:" % head, r.stdout.decode()); return 2
         env = dict(os.environ, VP_REPO=wt, VP_NO_EVIDENCE="1")
         for p in props:
